@@ -114,7 +114,129 @@ func probeTyped[T any](kind string, f fkey, raw []byte) (accepted bool, decoded 
 	return true, fmt.Sprintf("%v", any(payload)), nil
 }
 
+// produceTyped produces a message of the kind with a typed payload and returns the payload bytes that were placed on
+// the wire (read back through the RawMessage instantiation of the same kind).
+func produceTyped[T any](kind string, f fkey, payload T) ([]byte, error) {
+	var data []byte
+	var err error
+	switch kind {
+	case "KSign1":
+		data, err = (&cose.Sign1Message[T]{Payload: payload}).SignAndEncode(f, nil)
+	case "KMac0":
+		data, err = (&cose.Mac0Message[T]{Payload: payload}).ComputeAndEncode(f, nil)
+	case "KEnc0":
+		data, err = (&cose.Encrypt0Message[T]{Payload: payload}).EncryptAndEncode(f, nil)
+	case "KSign":
+		data, err = (&cose.SignMessage[T]{Payload: payload}).SignAndEncode(key.Signers{f}, nil)
+	case "KMac":
+		m := &cose.MacMessage[T]{Payload: payload}
+		m.AddRecipient(&cose.Recipient{Protected: cose.Headers{}, Unprotected: cose.Headers{iana.HeaderParameterAlg: iana.AlgorithmDirect}, Ciphertext: []byte{}})
+		data, err = m.ComputeAndEncode(f, nil)
+	default:
+		m := &cose.EncryptMessage[T]{Payload: payload}
+		m.AddRecipient(&cose.Recipient{Protected: cose.Headers{}, Unprotected: cose.Headers{iana.HeaderParameterAlg: iana.AlgorithmDirect}, Ciphertext: []byte{}})
+		data, err = m.EncryptAndEncode(f, nil)
+	}
+	if err != nil {
+		return nil, err
+	}
+	switch kind {
+	case "KSign1":
+		m, e := cose.VerifySign1Message[cbor.RawMessage](f, data, nil)
+		if e != nil {
+			return nil, e
+		}
+		return m.Payload, nil
+	case "KMac0":
+		m, e := cose.VerifyMac0Message[cbor.RawMessage](f, data, nil)
+		if e != nil {
+			return nil, e
+		}
+		return m.Payload, nil
+	case "KEnc0":
+		m, e := cose.DecryptEncrypt0Message[cbor.RawMessage](f, data, nil)
+		if e != nil {
+			return nil, e
+		}
+		return m.Payload, nil
+	case "KSign":
+		m, e := cose.VerifySignMessage[cbor.RawMessage](key.Verifiers{f}, data, nil)
+		if e != nil {
+			return nil, e
+		}
+		return m.Payload, nil
+	case "KMac":
+		m, e := cose.VerifyMacMessage[cbor.RawMessage](f, data, nil)
+		if e != nil {
+			return nil, e
+		}
+		return m.Payload, nil
+	}
+	m, e := cose.DecryptEncryptMessage[cbor.RawMessage](f, data, nil)
+	if e != nil {
+		return nil, e
+	}
+	return m.Payload, nil
+}
+
+// typedPayloadProduced: whatever the payload type, the payload bytes a message leaves with are deterministic CBOR
+// (map keys in bytewise order at every depth): equal to the library's own deterministic encoding of the value, and the
+// same on every production.
+func typedPayloadProduced(c *ctx) {
+	f := fkey{k: key.Key{iana.KeyParameterKty: 4, iana.KeyParameterKid: []byte("t")}, secret: []byte{0x51}, nsize: 12}
+	big := map[any]any{}
+	ints := map[int]string{}
+	strs := map[string]int{}
+	for i := 0; i < 9; i++ {
+		big[[]any{1, -1, 24, "a", "bb", -25, 256, "", 65536}[i]] = i
+		ints[[]int{1, -1, 24, 23, -25, 256, 65536, -257, 0}[i]] = fmt.Sprint(i)
+		strs[[]string{"", "a", "b", "aa", "ab", "z", "aaa", "B", "zz"}[i]] = i
+	}
+	type run struct {
+		tname string
+		f     func(kind string) ([]byte, error)
+		want  func() ([]byte, error)
+	}
+	st := typedStruct{A: "x", B: map[int]any{1: 1, -1: 2, 24: 3, 256: 4, -25: 5, 2: map[any]any{"k": 1, 1: 2, -1: 3, 24: 4}}, D: strs}
+	nested := []any{1, big, map[any]any{"m": ints}}
+	runs := []run{
+		{"map[any]any", func(k string) ([]byte, error) { return produceTyped[map[any]any](k, f, big) }, func() ([]byte, error) { return key.MarshalCBOR(big) }},
+		{"map[int]string", func(k string) ([]byte, error) { return produceTyped[map[int]string](k, f, ints) }, func() ([]byte, error) { return key.MarshalCBOR(ints) }},
+		{"map[string]int", func(k string) ([]byte, error) { return produceTyped[map[string]int](k, f, strs) }, func() ([]byte, error) { return key.MarshalCBOR(strs) }},
+		{"struct with maps", func(k string) ([]byte, error) { return produceTyped[typedStruct](k, f, st) }, func() ([]byte, error) { return key.MarshalCBOR(st) }},
+		{"*struct with maps", func(k string) ([]byte, error) { return produceTyped[*typedStruct](k, f, &st) }, func() ([]byte, error) { return key.MarshalCBOR(&st) }},
+		{"[]any holding maps", func(k string) ([]byte, error) { return produceTyped[[]any](k, f, nested) }, func() ([]byte, error) { return key.MarshalCBOR(nested) }},
+		{"any holding a map", func(k string) ([]byte, error) { return produceTyped[any](k, f, big) }, func() ([]byte, error) { return key.MarshalCBOR(big) }},
+	}
+	for _, kind := range []string{"KSign1", "KMac0", "KEnc0", "KSign", "KMac", "KEnc"} {
+		for _, r := range runs {
+			want, werr := r.want()
+			if werr != nil {
+				continue
+			}
+			for rep := 0; rep < 3; rep++ {
+				var got []byte
+				var err error
+				p, pm := catch(func() { got, err = r.f(kind) })
+				c.eval()
+				c.nontriv(fmt.Sprintf("typed-produced|%s|%s", kind, r.tname))
+				line := fmt.Sprintf("typed-payload-produced|%s[%s]|production %d", kind, r.tname, rep+1)
+				if p || err != nil {
+					c.fail(failure{Op: "typed-payload", What: "a message with a typed payload is not produced or not accepted back", Input: line, Observed: fmt.Sprintf("panic=%v %s err=%v", p, pm, err), Expected: "payload bytes", Case: line})
+					break
+				}
+				if string(got) != string(want) {
+					c.fail(failure{Op: "typed-payload", What: "the payload bytes of a produced message are not the deterministic encoding of the payload value (map keys out of bytewise order)", Input: line,
+						Observed: short(fmt.Sprintf("%x", got)), Expected: short(fmt.Sprintf("%x", want)), Case: line, Theorem: "C08_encode_sorted"})
+					break
+				}
+			}
+		}
+	}
+}
+
 func typedPayloadProbes(c *ctx) {
+	typedPayloadProduced(c)
 	f := fkey{k: key.Key{iana.KeyParameterKty: 4, iana.KeyParameterKid: []byte("t")}, secret: []byte{0x51}, nsize: 12}
 	type probe struct {
 		tname string
